@@ -267,7 +267,10 @@ func negotiateCompression( // nolint:nonamedreturns
 			// Connect protocol, we should return CodeUnimplemented and specify
 			// acceptable compression(s) (in addition to setting the a
 			// protocol-specific accept-encoding header).
-			return "", "", errorf(
+			// The response that carries this error is written uncompressed: name
+			// identity, not the empty string, or callers label it with an encoding
+			// header that has no value.
+			return compressionIdentity, compressionIdentity, errorf(
 				CodeUnimplemented,
 				"unknown compression %q: supported encodings are %v",
 				sent, availableCompressors.CommaSeparatedNames(),
